@@ -127,6 +127,17 @@ def rtq_ambiguous(q):
     return wire.ser(a, pos=False) != wire.ser(b, pos=False)
 
 
+def rtq_involved(queries):
+    """is the known finding in play for a set of evaluations sharing one cache: some canonical or as-typed text of a query, a prefix
+    or a link sub-query of ANY of them is ambiguous (relative links re-parse the canonical text of their parent; both readings of an
+    ambiguous text share a cache key)"""
+    for q in queries:
+        for k in related_keys(q):
+            if rtq_ambiguous(k) or rtq_ambiguous(k.lstrip("/")):
+                return True
+    return False
+
+
 def canonical(q):
     from liquer.parser import parse
     try:
